@@ -331,7 +331,8 @@ class INSObserver(StandardObserver):
         setattr(INS, method, wrapper)
 
     def done_event(self, fs, tag):
-        self.em.emit(tag, **result_facts_ins(fs, self), **self.counts(fs.ns))
+        counts = self.counts(fs.ns)     # (timers are read before the oracle spends time)
+        self.em.emit(tag, **result_facts_ins(fs, self), **counts)
 
     def resume_event(self, ns):
         from .oracle_ins import F32
